@@ -9,3 +9,12 @@ package types
 //@   mode math
 //@   ensures result == "0000000000000000"
 //@   modifies nothing
+
+// ToInterfaceArray copies the values one by one (v.(interface{}) panics on a nil value)
+//@ func ToInterfaceArray
+//@   mode math
+//@   props C03
+//@   requires forall v in ja :: v != nil
+//@   loop 0 invariant len(ret) == rangeindex + 1 && rangeindex + 1 <= len(ja)
+//@   ensures[same-length] len(result) == len(ja)
+//@   modifies nothing
